@@ -114,22 +114,27 @@ def emptyReadAsAbsent (p : Pod) (cands : List String) (absent : String → Bool)
     some key `k`, which the node / NodeClaim leaves unset, a `NotIn` with values together with `Exists` / `Gt` / `Lt`
     (and no `In`).  Karpenter's requirement representation keeps only "complement set of values (+ bounds)", reports
     the operator `NotIn`, and therefore accepts the absent label although `Exists`/`Gt`/`Lt` need it (known finding). -/
-def presenceLostWithNotIn (p : Pod) (absent : String → Bool) : Bool :=
+def presenceLostWithNotIn (p : Pod) (absent : String → Bool) (ctx : List KExpr := []) : Bool :=
   let selExprs : List KExpr := p.nodeSelector.map (fun (k, v) => { key := k, op := .in_, vals := [v] })
   let terms := if p.required.isEmpty then [[]] else p.required
-  terms.any (fun t =>
-    let es := selExprs ++ t
+  -- Karpenter also folds the heaviest remaining preferred term into the requirements (the `NotIn` or the `Exists` may
+  -- come from there)
+  let prefs : List (List KExpr) := [] :: p.preferred.map (·.exprs)
+  terms.any (fun t => prefs.any (fun pr =>
+    let es := selExprs ++ t ++ pr
     let keys := (es.map (fun e => normalizeKey e.key)).eraseDups
     keys.any (fun k =>
       let ek := es.filter (fun e => normalizeKey e.key == k)
       absent k &&
-      ek.any (fun e => e.op == .notIn && !e.vals.isEmpty) &&
-      ek.any (fun e => e.op == .exists_ || e.op == .gt || e.op == .lt || e.op == .gte || e.op == .lte) &&
-      !ek.any (fun e => e.op == .in_ || e.op == .doesNotExist)))
+      -- the `NotIn` may also come from the NodePool's requirements or from another pod on the same NodeClaim (`ctx`)
+      (ek ++ ctx.filter (fun e => normalizeKey e.key == k)).any (fun e => e.op == .notIn && !e.vals.isEmpty) &&
+      -- the expression that needs the label present must be a hard one (node selector / required term)
+      (selExprs ++ t).any (fun e => normalizeKey e.key == k && (e.op == .exists_ || e.op == .gt || e.op == .lt || e.op == .gte || e.op == .lte)) &&
+      !ek.any (fun e => e.op == .in_ || e.op == .doesNotExist))))
 
-def tagFor (p : Pod) (cands : List String) (absent : String → Bool) : String :=
+def tagFor (p : Pod) (cands : List String) (absent : String → Bool) (ctx : List KExpr := []) : String :=
   if emptyReadAsAbsent p cands absent then "[empty-set-read-as-absent] "
-  else if presenceLostWithNotIn p absent then "[presence-lost-with-notin] "
+  else if presenceLostWithNotIn p absent ctx then "[presence-lost-with-notin] "
   else ""
 
 /-- one pod against one node: selector, affinity, taints -/
@@ -201,11 +206,11 @@ def labelDomain (p : Pool) (c : Claim) (it : IT) (o : Offering) (cands : List St
 def exprOnDomain (dom : String → List (Option String)) (e : KExpr) : Bool :=
   (dom (normalizeKey e.key)).all (fun x => k8sMatch e.op e.vals x)
 
-def podOnDomain (dom : String → List (Option String)) (p : Pod) (cands : List String) : Option String :=
+def podOnDomain (dom : String → List (Option String)) (p : Pod) (cands : List String) (ctx : List KExpr := []) : Option String :=
   if !(p.nodeSelector.all (fun (k, v) => (dom (normalizeKey k)).all (fun x => x == some v))) then
-    some s!"{tagFor p cands (fun k => (dom k).contains none)}pod {p.name}: node selector is not guaranteed by the NodeClaim"
+    some s!"{tagFor p cands (fun k => (dom k).contains none) ctx}pod {p.name}: node selector is not guaranteed by the NodeClaim"
   else if !(p.required.isEmpty || p.required.any (fun t => t.all (exprOnDomain dom))) then
-    some s!"{tagFor p cands (fun k => (dom k).contains none)}pod {p.name}: no required node-affinity term is guaranteed by the NodeClaim"
+    some s!"{tagFor p cands (fun k => (dom k).contains none) ctx}pod {p.name}: no required node-affinity term is guaranteed by the NodeClaim"
   else none
 
 /-- daemonsets expected on a node of pool `p` launched as `it` with offering `o` -/
@@ -226,8 +231,8 @@ def launchFits (s : Scenario) (p : Pool) (pods : List Pod) (it : IT) (o : Offeri
   let ds := s.daemonsets.filter (dsOnLaunch p it o)
   let dCPU := ds.foldl (fun a d => a + d.cpu) 0
   let dMem := ds.foldl (fun a d => a + d.mem) 0
-  if sumCPU pods + dCPU > it.allocCPU then
-    some s!"instance type {it.name}: cpu {sumCPU pods}m + daemons {dCPU}m exceed allocatable {it.allocCPU}m"
+  if sumCPU pods + dCPU > it.allocCPUFor o then
+    some s!"instance type {it.name}: cpu {sumCPU pods}m + daemons {dCPU}m exceed allocatable {it.allocCPUFor o}m of the {o.zone}/{o.ct} offering"
   else if sumMem pods + dMem > it.mem then
     some s!"instance type {it.name}: memory {sumMem pods}Mi + daemons {dMem}Mi exceed allocatable {it.mem}Mi"
   else if ((pods.length + ds.length : Nat) : Int) > it.pods then
@@ -262,7 +267,12 @@ def claimOK (s : Scenario) (c : Claim) (cands : List String) : Option String :=
           -- every labelling the launch may produce must satisfy every pod
           firstSome (ofs.map (fun o =>
             let dom := labelDomain p c it o cands
-            firstSome (pods.map (fun pd => (podOnDomain dom pd cands).map (fun w => s!"{w} (launched as {itn} in {o.zone}/{o.ct})")))))))
+            firstSome (pods.map (fun pd =>
+              -- classification context: the NodePool's requirements and the other pods of the NodeClaim
+              let others := pods.filter (fun q => q.name != pd.name)
+              let ctx : List KExpr := p.reqs.map (fun r => { key := r.key, op := r.op, vals := r.vals }) ++
+                others.flatMap (fun q => q.required.flatten ++ q.preferred.flatMap (·.exprs))
+              (podOnDomain dom pd cands ctx).map (fun w => s!"{w} (launched as {itn} in {o.zone}/{o.ct})")))))))
 
 /-- the whole outcome of a pass -/
 def outcomeOK (s : Scenario) (out : Outcome) (cands : List String) : Option String :=
